@@ -1,0 +1,18 @@
+//go:build verif
+
+package build
+
+import "github.com/thought-machine/please/src/core"
+
+// Hooks for the verification harness (property C35: declared output hashes are enforced exactly).
+// Thin exported wrappers around unexported functions; nothing here is reachable without the build tag.
+
+// CheckRuleHashesForVerif runs checkRuleHashes for target against the given, already calculated output hash.
+func CheckRuleHashesForVerif(state *core.BuildState, target *core.BuildTarget, hash []byte) error {
+	return checkRuleHashes(state, target, hash)
+}
+
+// OutputHashForVerif calculates the target's output hash the way a fresh (unmemoised) targetHasher does.
+func OutputHashForVerif(state *core.BuildState, target *core.BuildTarget) ([]byte, error) {
+	return newTargetHasher(state).OutputHash(target)
+}
